@@ -64,6 +64,7 @@ type PointRec struct {
 	Pre        int  // preemptions before this point
 	Key        uint64
 	Env        bool // environment choice (Choose / select case), never a preemption
+	Dev        int  // departures from the default choice (choice != 0) before this point
 }
 
 type Execution struct {
@@ -114,6 +115,8 @@ type sched struct {
 	envSeq   int
 	objSum   uint64
 	dp       *dporState
+	devs     int  // points so far whose choice was not the default one
+	devPrune bool // the prune callback is given devs instead of the preemption count
 }
 
 // S is the scheduler of the execution in progress (exactly one at a time per process).
@@ -125,6 +128,9 @@ type RunOpts struct {
 	// Prune is consulted at every thread-choice point beyond the prefix with the state key; returning
 	// true cuts the execution there (the explorer has already expanded that state).
 	Prune func(key uint64, point int, pre int) bool
+	// PruneByDeviations: Prune's third argument is the number of departures from the default choice so far
+	// (deviation-bounded search) instead of the number of preemptions
+	PruneByDeviations bool
 	// DPOR switches on event/access recording and sleep sets (see dpor.go)
 	DPOR *DPORIn
 }
@@ -147,7 +153,7 @@ func hstr(s string) uint64 {
 // Run executes main as thread 0 under the choice prefix (default choice 0 afterwards) and returns
 // the record of the execution. All logical threads have exited when it returns.
 func Run(prefix []int, o RunOpts, main func()) *Execution {
-	s := &sched{prefix: prefix, x: &Execution{SharedAtStart: len(sharedOrder)}, finished: make(chan struct{}), chans: map[uintptr]*chanState{}, objs: map[any]*object{}, verbose: o.Verbose, prune: o.Prune}
+	s := &sched{prefix: prefix, x: &Execution{SharedAtStart: len(sharedOrder)}, finished: make(chan struct{}), chans: map[uintptr]*chanState{}, objs: map[any]*object{}, verbose: o.Verbose, prune: o.Prune, devPrune: o.PruneByDeviations}
 	S = s
 	t := s.spawn(nil, main)
 	if o.DPOR != nil {
@@ -437,7 +443,7 @@ func (s *sched) yield(t *thread) {
 			s.park(t)
 			return
 		}
-	} else if s.prune != nil && len(en) > 1 && s.prune(key, i, s.pre) {
+	} else if s.prune != nil && len(en) > 1 && s.prune(key, i, s.pruneCount()) {
 		s.x.Aborted = true
 		s.x.PruneAt = i
 		s.finish()
@@ -445,7 +451,10 @@ func (s *sched) yield(t *thread) {
 		return
 	}
 	defEn := curEn && !spinning
-	s.x.Points = append(s.x.Points, PointRec{Choice: ch, N: len(en), CurEnabled: defEn, Pre: s.pre, Key: key})
+	s.x.Points = append(s.x.Points, PointRec{Choice: ch, N: len(en), CurEnabled: defEn, Pre: s.pre, Key: key, Dev: s.devs})
+	if ch != 0 {
+		s.devs++
+	}
 	next := en[ch]
 	if s.dp != nil {
 		s.x.DP = append(s.x.DP, dpt)
@@ -463,6 +472,13 @@ func (s *sched) yield(t *thread) {
 		next.wake <- struct{}{}
 		s.park(t)
 	}
+}
+
+func (s *sched) pruneCount() int {
+	if s.devPrune {
+		return s.devs
+	}
+	return s.pre
 }
 
 // park blocks the calling thread until it is scheduled again (or the execution is torn down).
@@ -652,7 +668,10 @@ func Choose(n int) int {
 			panic(fmt.Sprintf("vrt: replay divergence at env point %d: choice %d of %d", i, ch, n))
 		}
 	}
-	s.x.Points = append(s.x.Points, PointRec{Choice: ch, N: n, Pre: s.pre, Env: true})
+	s.x.Points = append(s.x.Points, PointRec{Choice: ch, N: n, Pre: s.pre, Env: true, Dev: s.devs})
+	if ch != 0 {
+		s.devs++
+	}
 	if s.dp != nil {
 		s.x.DP = append(s.x.DP, nil)
 	}
